@@ -68,6 +68,6 @@ COMPONENTS_NOTE = {
     "progress bar (tqdm)": "stub FakeBar",
     "np_fns.vmap / linear_transpose / sparse_csr / to_np": "stub (harness shim)",
     "user party (operator callbacks, top-level draws)": "harness",
-    "caller threads (C17)": "real threads, one baton: sys.settrace line events inside cola/ are the pre-emption points, the seeded scheduler decides every switch (sim/threads.py)",
+    "caller threads (C17, C18)": "real threads, one baton: sys.settrace line events inside cola/ are the pre-emption points, the seeded scheduler decides every switch (sim/threads.py, sim/threads18.py); C18 additionally: a continuous observer after every source line",
     "jax / torch backends": "absent",
 }
